@@ -431,7 +431,7 @@ def overlay_json(scratch, mapping):
 # --------------------------------------------------------------------------------------
 
 MACHINERY_SIG = re.compile(r"(^|-)(proof-obligation|machinery-error|correspondence|harness|driver|impl-run-failed|"
-                           r"too-few-evaluations|no-model-checks|vm-compute-cross-check)(-|$|@)")
+                           r"too-few-evaluations|no-model-checks|vm-compute-cross-check|crosscheck|driver-count)(-|$|@)")
 
 
 def known_findings(pid):
